@@ -33,13 +33,21 @@ type c03Shape struct {
 	DictLen  int    `json:"dict_len"` // length of dictionary tokens
 	SkipSort bool   `json:"skip_sort"`
 	Zstd     int    `json:"zstd"`
+	Run      int    `json:"run,omitempty"` // documents per timestamp (0 = 2): longer runs of equal MIDs cross ID-block borders
+}
+
+func (s c03Shape) run() int {
+	if s.Run > 0 {
+		return s.Run
+	}
+	return 2
 }
 
 func (s c03Shape) docs() []refdb.Doc {
 	docs := make([]refdb.Doc, s.N)
 	for i := 0; i < s.N; i++ {
 		// ID order: MID pairs share a timestamp, RIDs distinct
-		id := refdb.ID{MID: uint64(vfrac.BaseMID + i/2), RID: uint64(50 + (i*7)%13)}
+		id := refdb.ID{MID: uint64(vfrac.BaseMID + i/s.run()), RID: uint64(50 + (i*7)%13)}
 		toks := []refdb.Tok{{F: "u", V: fmt.Sprintf("v%02d", i)}, {F: "n", V: fmt.Sprint(i - 3)}}
 		if i < s.P {
 			toks = append(toks, refdb.Tok{F: "k", V: "hot"})
@@ -273,7 +281,7 @@ func sealParams(z int) frac.SealParams {
 
 func requestsFor(s c03Shape, docs []refdb.Doc) []c03Req {
 	var reqs []c03Req
-	maxMID := uint64(vfrac.BaseMID + (s.N-1)/2)
+	maxMID := uint64(vfrac.BaseMID + (s.N-1)/s.run())
 	var qs []string
 	for _, q := range c03QueryList() {
 		qs = append(qs, q.Render())
@@ -459,6 +467,16 @@ func TestVerifC03(t *testing.T) {
 			}
 		}
 	}
+	// runs of equal timestamps longer than an ID block (4 and "all equal"): only the RIDs order them
+	for n := 4; n <= maxN; n++ {
+		for _, run := range []int{4, 13} {
+			for _, arr := range []string{"asc", "inter"} {
+				for _, ss := range []bool{false, true} {
+					shapes = append(shapes, c03Shape{N: n, P: n / 2, Arrival: arr, Bulks: 1, Dict: 0, DictLen: 5, SkipSort: ss, Zstd: 1, Run: run})
+				}
+			}
+		}
+	}
 	// dictionary-directed shapes: every dictionary size 1..12 x token length 5..8 (exactly fills / overflows 64 B)
 	for dict := 1; dict <= 12; dict++ {
 		for dl := 5; dl <= 8; dl++ {
@@ -475,7 +493,7 @@ func TestVerifC03(t *testing.T) {
 	})
 	ev := r.Get("evaluations")
 	r.Finish(t, "model_checking",
-		"under scaled block constants (4 IDs/block, 4 LIDs/block, 64-byte token blocks): every corpus shape n=1..13 x hot-token postings p=0..9 x arrival order {asc,desc,interleaved} x bulk split {1,2,per-doc}, x skip-sort on/off, with dictionary size/token length/zstd level rotating (thorough: all zstd levels crossed), plus all dictionary sizes 1..12 x token lengths 5..8; each answered by 6 forms (active, sealed-preloaded, reopened via header, reopened via cached info, both reopened forms with a 1-byte cache budget evicted after every request); requests: 14 queries x orders x limits, time borders at every MID, histograms, 6 aggregation kinds, fetch lists. distinct_nontrivial = distinct corpus shapes",
+		"under scaled block constants (4 IDs/block, 4 LIDs/block, 64-byte token blocks): every corpus shape n=1..13 x hot-token postings p=0..9 x arrival order {asc,desc,interleaved} x bulk split {1,2,per-doc}, x skip-sort on/off, with dictionary size/token length/zstd level rotating (thorough: all zstd levels crossed), plus all dictionary sizes 1..12 x token lengths 5..8, plus n=4..13 with 4 or all documents per timestamp (equal-MID runs across ID-block borders; two per timestamp otherwise); each answered by 6 forms (active, sealed-preloaded, reopened via header, reopened via cached info, both reopened forms with a 1-byte cache budget evicted after every request); requests: 14 queries x orders x limits, time borders at every MID, histograms, 6 aggregation kinds, fetch lists. distinct_nontrivial = distinct corpus shapes",
 		map[string]any{
 			"states":                        r.Get("corpora"),
 			"transitions":                   ev,
